@@ -11,7 +11,7 @@ import ast
 import z3
 from ..sym import *
 from ..engine import Engine, SymRaise, Unsupported, Abort, TT
-from ..interp import Interp
+from ..interp import Interp, SDict
 from ..extract import extract
 from ..ghost import *
 from .. import world as W
@@ -1142,3 +1142,42 @@ _mk_dict_update("update_hourly_data_transferred_per_usage_pattern", "hourly_data
 _mk_dict_update("update_hourly_data_stored_per_usage_pattern", "hourly_data_stored_per_usage_pattern",
                 lambda I, job, up: call_job_dx(I, job, up, "data_stored"),
                 "entry[up] = compute_hourly_data_exchange_for_usage_pattern(up, 'data_stored') for every usage pattern of the job, and no other key")
+
+
+# =====================================================================================================================
+# BoaviztaCloudServer  (C17: parameters extracted from the packaged Boavizta data, value for value)
+# =====================================================================================================================
+def _boavizta_response(I, o, v):
+    """the API response as a nested dictionary with symbolic numeric leaves; the unit strings and the use-time ratio are the ones
+    every packaged archetype carries (the code asserts them: a different unit is an AssertionError, outside this contract)"""
+    fam = o.family
+    leaf = lambda n: PyNum(z3.Real(f"{fam}.response.{n}"))
+    v.value = SDict({"verbose": SDict({"memory": SDict({"value": leaf("memory"), "unit": "GB"}), "vcpu": SDict({"value": leaf("vcpu")}),
+                                       "avg_power": SDict({"value": leaf("avg_power"), "unit": "W"}),
+                                       "use_time_ratio": SDict({"value": PyNum(z3.IntVal(1))})}),
+                     "impacts": SDict({"gwp": SDict({"embedded": SDict({"value": leaf("gwp_embedded")})})})})
+
+
+W.SCHEMA.update({("BoaviztaCloudServer", "api_call_response"): ("O", None), ("BoaviztaCloudServer", "carbon_footprint_fabrication"): ("Q", W.MASS),
+                 ("BoaviztaCloudServer", "power"): ("Q", W.POWER), ("BoaviztaCloudServer", "ram"): ("Q", DIMLESS), ("BoaviztaCloudServer", "compute"): ("Q", CPU)})
+ATTR_INV[("BoaviztaCloudServer", "api_call_response")] = _boavizta_response
+
+
+def _resp(I, g, *path):
+    d = g.raw("api_call_response").value
+    for k in path: d = d.d[k]
+    return d.r
+
+
+def _mk_boavizta(fn, path, unit_name, dim):
+    @update("BoaviztaCloudServer", fn, kind="Q")
+    def f(I, g):
+        return ("q", _resp(I, g, *path) * I.units.literal(unit_name).f, dim)
+    f.__doc__ = f"{fn[7:]} = response{list(path)} {unit_name}, as packaged (no rounding, no truncation)"
+    return f
+
+
+_mk_boavizta("update_ram", ("verbose", "memory", "value"), "GB", DIMLESS)
+_mk_boavizta("update_compute", ("verbose", "vcpu", "value"), "cpu_core", CPU)
+_mk_boavizta("update_power", ("verbose", "avg_power", "value"), "W", W.POWER)
+_mk_boavizta("update_carbon_footprint_fabrication", ("impacts", "gwp", "embedded", "value"), "kg", W.MASS)
